@@ -171,6 +171,6 @@ def main(tier, seed):
                 for j in idxs:
                     if j > i and j - i <= 2: plist.append(dict(fmt=fmt, template=cps[:i] + [None] + cps[i + 1:j] + [None] + cps[j + 1:]))
         R.run_query(Query('enum-corrupt/' + fmt, 'c12', 'path', plist, '%d samples, arbitrary char at digit positions (single and adjacent pairs) and every %s position' % (len(strs), '3rd' if quick else '')), confirm, key_of)
-        plist2 = [dict(p, pipeline='fold') for p in plist[:: (4 if quick else 1)]] + [dict(fmt=fmt, template=[None] * k, pipeline='fold') for k in range(0, n)]
+        plist2 = [dict(p, pipeline='fold') for p in plist[:: (2 if quick else 1)]] + [dict(p, pipeline='fold') for p in plist if sum(1 for x in p['template'] if x is None) == 1 and chr(([c for c in [ord('0')]][0])) and any(x is None and i_ > 0 and p['template'][i_ - 1] is not None and chr(p['template'][i_ - 1]) in '0123456789.;$%' for i_, x in enumerate(p['template']))] + [dict(fmt=fmt, template=[None] * k, pipeline='fold') for k in range(0, n)]
         R.run_query(Query('fold/' + fmt, 'c12', 'path', plist2, 'lexical parse + fold on the same corrupted samples and on all strings of < %d chars' % n), confirm, key_of)
     return R.finish(rule='one state = one path of parser (or lexical parser + fold) + wf predicate + 3 formatters + typst', trusted=['rustc MIR', 'mirsym + std models (validated per path)', 'z3'])
